@@ -116,7 +116,7 @@ struct LcSim : Harness {
   }
 
   // ------------------------------------------------------------------------------------------ run state
-  struct Mod { bool created = false, loaded = false, linked = false; MIR_module_t m = nullptr; std::string via; int iface = -1; };
+  struct Mod { bool created = false, loaded = false, linked = false; MIR_module_t m = nullptr; std::string via; int iface = -1; bool ambiguous = false; };
   struct Fn { const Json *def = nullptr; int mod = -1; MIR_item_t item = nullptr; void *addr_seen = nullptr; void *gen_addr = nullptr; int generated = 0, interp_runs = 0, addr_calls = 0;  bool lazybb_entered = false; bool has_lt = false; int table_owner = 0 /* 0 none, 1 interp, 2 gen */; bool icode = false; };
   MIR_context_t ctx = nullptr; std::vector<Mod> mods; std::map<std::string, std::vector<Fn>> fns;  // name -> definitions (C13: several)
   std::map<std::string, FuncInfo> sigs; const Json *prog_json = nullptr;
@@ -124,6 +124,9 @@ struct LcSim : Harness {
   // binding model (C13): name -> latest definition; (module index, name) -> bound definition
   struct Def { const Json *def = nullptr; bool external = false; int k = -1; int mod = -1; };
   std::map<std::string, Def> G; std::map<std::pair<int, std::string>, Def> bound; std::vector<int> pending;
+  // what the implementation is known to do instead when a queued module is linked a second time (known finding): direct
+  // calls of MIR functions were inlined by the first step and keep that definition; everything else is re-bound
+  std::map<std::pair<int, std::string>, Def> bound_inlined; bool use_impl_bindings = false;
   bool redef_allowed = false;
   std::string mode; Fnv th; uint64_t nops_done = 0;
   typedef std::vector<uint8_t> Bytes_t;
@@ -154,8 +157,13 @@ struct LcSim : Harness {
     model = prog::Model();
     model.module_of = [this](const Json *d) -> std::string { for (auto &kv : fns) for (auto &f : kv.second) if (f.def == d) return std::to_string(f.mod); return "-1"; };
     model.resolve = [this](const std::string &mod, const std::string &callee) -> const Json * {
-      int mi = atoi(mod.c_str());
-      if (mi >= 0) { Fn *own = find_fn(callee, mi); if (own) return own->def; auto it = bound.find({mi, callee}); if (it != bound.end()) return it->second.def; }
+      int mi = atoi(mod.c_str()); bool indirect = callee.size() > 2 && callee.compare(callee.size() - 2, 2, "#i") == 0;
+      std::string name = indirect ? callee.substr(0, callee.size() - 2) : callee;
+      if (mi >= 0) {
+        Fn *own = find_fn(name, mi); if (own) return own->def;
+        if (use_impl_bindings && !indirect) { auto ii = bound_inlined.find({mi, name}); if (ii != bound_inlined.end()) return ii->second.def; }
+        auto it = bound.find({mi, name}); if (it != bound.end()) return it->second.def;
+      }
       return nullptr;
     };
     model.ext = [this](int64_t tag, int64_t v, prog::Model &m) -> int64_t {
@@ -184,7 +192,8 @@ struct LcSim : Harness {
     Outcome out; cur_out = &out; C = &rc; g_self = this; th = Fnv(); clock_ticks = 0; nops_done = 0;
     const Json &kn = plan.at("knobs"); mode = kn.gets("mode", "C17");
     prog_json = &plan.at("prog"); sigs = prog::signatures(*prog_json);
-    mods.assign(prog_json->at("mods").size(), Mod()); fns.clear(); G.clear(); bound.clear(); pending.clear(); foreign.clear(); ext_log.clear(); reenter_addr.clear(); reenter_name.clear(); resolver_k.clear(); resolver_asked.clear();
+    if (mode == "C13") for (const char *nm : {"f", "g", "h"}) if (!sigs.count(nm)) { FuncInfo fi; fi.name = nm; fi.na = 1; sigs[nm] = fi; }  // names that only externals define
+    mods.assign(prog_json->at("mods").size(), Mod()); fns.clear(); G.clear(); bound.clear(); bound_inlined.clear(); use_impl_bindings = false; pending.clear(); foreign.clear(); ext_log.clear(); reenter_addr.clear(); reenter_name.clear(); resolver_k.clear(); resolver_asked.clear();
     gen_on = c2m_on = ext_loaded = false; opt_level = 2; redef_allowed = false; ext_depth = 0; mdepth = 0; store.clear();
     for (size_t mi = 0; mi < prog_json->at("mods").size(); mi++) for (auto &f : prog_json->at("mods")[mi].at("funcs").a) { Fn fn; fn.def = &f; fn.mod = (int) mi; prog::walk(f.at("body"), [&](const Json &st) { if (st[0].s == "lt") fn.has_lt = true; }); fns[f.gets("name")].push_back(fn); }
     if (auto re = kn.find("reenter")) for (auto &p : re->o) reenter_name[atoll(p.first.c_str())] = p.second.s;
@@ -302,6 +311,7 @@ struct LcSim : Harness {
     } else if (o == "ldext") {
       std::string name = op.size() > 1 && op[1].k == Json::Str ? op[1].s : "f"; int k = (int) argi(2) & 7;
       phase("MIR_load_external", name); MIR_load_external(ctx, name.c_str(), extdef_addr(k));
+      { auto it = G.find(name); if (it != G.end()) C->count(it->second.external ? "c13_external_over_external" : "c13_external_over_export"); }
       Def d; d.def = extdef_def(k); d.external = true; d.k = k; G[name] = d; C->count("load_external");
     } else if (o == "redef") { redef_allowed = argi(1) != 0; MIR_set_func_redef_permission(ctx, redef_allowed ? 1 : 0); }
     else if (o == "geninit") { if (gen_on) return; phase("MIR_gen_init"); MIR_gen_init(ctx); gen_on = true; MIR_gen_set_optimize_level(ctx, (unsigned) opt_level); }
@@ -324,7 +334,8 @@ struct LcSim : Harness {
       if (!f.geti("exp", 1)) continue; std::string n = f.gets("name");
       auto it = G.find(n);
       if (it != G.end() && !it->second.external && it->second.def != &f && !redef_allowed) { expect_error = MIR_repeated_decl_error; expect_error_why = "second exported function " + n + " loaded without redefinition permission"; return; }
-      if (it != G.end() && it->second.external) { expect_error = -2; /* don't care: statement is silent on export after external */ }
+      if (it != G.end() && it->second.external && !redef_allowed) { expect_error = -2; /* don't care: the statement is silent on an export loaded after an external of the same name */ }
+      if (it != G.end()) C->count(it->second.external ? "c13_export_over_external" : "c13_export_over_export");
       Def d; d.def = &f; d.mod = (int) mi; G[n] = d;
     }
   }
@@ -337,12 +348,22 @@ struct LcSim : Harness {
   void do_link(const Json &op, Outcome &out) {
     int iface = (int) (op.size() > 1 ? op[1].num() : 1) % 5; bool use_resolver = op.size() > 2 && op[2].num() != 0;
     if ((iface >= 2) && !gen_on) { phase("MIR_gen_init"); MIR_gen_init(ctx); gen_on = true; MIR_gen_set_optimize_level(ctx, (unsigned) opt_level); }
-    if (!ext_loaded && !use_resolver) { MIR_load_external(ctx, "ext", (void *) ext_c); ext_loaded = true; }
+    if (!ext_loaded && !use_resolver && mode != "C13") { MIR_load_external(ctx, "ext", (void *) ext_c); ext_loaded = true; }
     // model: bind every import of every pending module
     expect_error = -1; std::vector<std::pair<int, std::string>> newly;
     for (int mi : pending) for (auto &n : imports_of((size_t) mi)) {
       auto it = G.find(n);
-      if (it != G.end()) { bound[{mi, n}] = it->second; newly.push_back({mi, n}); continue; }
+      if (it != G.end()) {
+        // A module that stayed queued after a link without interface is linked a second time.  Calls the first step has
+        // already inlined keep the old definition, the others are re-bound: the statement does not say which it should be,
+        // so a changed binding on re-link makes the module's observations a declared don't-care.
+        auto old = bound.find({mi, n});
+        if (old != bound.end() && old->second.def != it->second.def) {
+          mods[mi].ambiguous = true; C->count("relink_with_changed_binding");
+          if (!old->second.external && !bound_inlined.count({mi, n})) bound_inlined[{mi, n}] = old->second;  // a direct call of it was inlined by the first link
+        }
+        bound[{mi, n}] = it->second; newly.push_back({mi, n}); continue;
+      }
       auto rk = resolver_k.find(n);
       if (use_resolver && rk != resolver_k.end()) { Def d; d.def = extdef_def(rk->second); d.external = true; d.k = rk->second; G[n] = d; bound[{mi, n}] = d; continue; }
       if (expect_error < 0) { expect_error = MIR_undeclared_op_ref_error; expect_error_why = "import of undefined " + n + " in module " + std::to_string(mi); }
@@ -357,7 +378,9 @@ struct LcSim : Harness {
     expect_error = -1;
     for (int mi : pending) { mods[mi].linked = true; mods[mi].iface = iface; }
     for (auto &kv : fns) for (auto &f : kv.second) for (int mi : pending) if (f.mod == mi) { f.icode = false; if (iface == 2) { f.table_owner = 2; f.generated = 1; } }
-    pending.clear(); C->count("link_steps");
+    if (iface != 0) pending.clear();  // MIR_link without an interface leaves the modules queued: they are linked (and re-bound) again by the next step
+    else C->count("link_without_interface_keeps_modules_pending");
+    C->count("link_steps");
     // public addresses and reference texts
     for (auto &kv : fns) for (auto &f : kv.second) if (f.item && mods[f.mod].linked) {
       if (f.addr_seen == nullptr && mods[f.mod].iface != 0) f.addr_seen = f.item->addr;
@@ -394,13 +417,15 @@ struct LcSim : Harness {
     check_text(*f, before, out, "after MIR_gen");
     th.str("gen"); th.str(n.c_str());
   }
+  std::string first_log_diff() { size_t i = 0; while (i < ext_log.size() && i < model.log.size() && ext_log[i] == model.log[i]) i++; std::string r = fmt("; first difference at call %zu:", i); if (i < ext_log.size()) r += fmt(" got ext(%lld,%lld)", (long long) ext_log[i].tag, (long long) ext_log[i].v); if (i < model.log.size()) r += fmt(" model ext(%lld,%lld)", (long long) model.log[i].tag, (long long) model.log[i].v); return r; }
   bool allow_interp_then_gen = true, allow_lazybb_then_interp = true;
 
   void do_call(const Json &op, Outcome &out, bool interp) {
     std::string n = op.size() > 1 && op[1].k == Json::Str ? op[1].s : ""; Fn *f = callable_fn(n);
     if (!f || !f->item) return;
     int iface = mods[f->mod].iface;
-    if (iface == 0) return;  // linked without an interface: not executable (calls would reach MIR's undefined_interface abort)
+    if (iface == 0) return;
+    if (mode == "C13") for (auto &b : bound) if (b.first.first == f->mod) { auto g = G.find(b.first.second); if (g != G.end() && g->second.def != b.second.def) { C->count("c13_observe_old_binding_after_redefinition"); break; } }  // linked without an interface: not executable (calls would reach MIR's undefined_interface abort)
     if (interp && !allow_lazybb_then_interp && iface == 4) return;   // lazy-bb function given to MIR_interp: C03's second finding
     if (!interp && !allow_interp_then_gen && iface == 3 && f->interp_runs > 0 && f->generated == 0) return;  // lazy generation after interpretation
     const Json &def = *f->def; int na = (int) def.geti("na"), nd = (int) def.geti("nd");
@@ -452,23 +477,93 @@ struct LcSim : Harness {
       if (iface == 4) f->lazybb_entered = true;
     }
     th.u64((uint64_t) got);
+    if (got != want && mods[f->mod].ambiguous) {
+      // does the value match what the implementation is known to do on re-link (inlined direct calls keep the old definition)?
+      prog::Model keep = model; use_impl_bindings = true; model.log.clear(); model.entered.clear(); model.steps = 0; model.overrun = false; model.depth = 0;
+      int64_t alt = model.call(def, args); use_impl_bindings = false; model = keep;
+      if (got == alt) { out.fail("relink_keeps_inlined_definition", interp ? "interp" : fmt("iface%d", iface), fmt("%s was left queued by MIR_link(ctx, NULL, ..), a name it imports was redefined, and the next link step re-linked it: its direct call still runs the definition inlined by the first step (returned %lld; binding to the latest definition gives %lld)", n.c_str(), (long long) got, (long long) want)); return; }
+    }
     if (got != want) { out.fail("wrong_result", interp ? "interp" : fmt("iface%d", iface), fmt("%s(%s) via %s returned %lld, the program model says %lld", n.c_str(), args.empty() ? "" : std::to_string(args[0]).c_str(), interp ? "MIR_interp" : fmt("address (interface %d, opt %d)", iface, opt_level).c_str(), (long long) got, (long long) want)); return; }
-    if (ext_log.size() != model.log.size() || !std::equal(ext_log.begin(), ext_log.end(), model.log.begin())) { out.fail("wrong_ext_log", interp ? "interp" : fmt("iface%d", iface), fmt("external-call log of %s differs from the model (%zu vs %zu calls)", n.c_str(), ext_log.size(), model.log.size())); return; }
+    if (ext_log.size() != model.log.size() || !std::equal(ext_log.begin(), ext_log.end(), model.log.begin())) { out.fail("wrong_ext_log", interp ? "interp" : fmt("iface%d", iface), fmt("external-call log of %s differs from the model (%zu vs %zu calls)", n.c_str(), ext_log.size(), model.log.size()) + first_log_diff()); return; }
     C->count("results_checked");
     for (auto &sp : snaps) { check_text(*sp.first, sp.second, out, interp ? "after MIR_interp" : "after a call through the public address"); if (out.violation) break; }
   }
 
   // ------------------------------------------------------------------------------------------ generation
+  // ---- C13: load / register / link histories over modules that export, import and redefine overlapping names
+  Json generate_c13(Rng &r, const Json &cfg) {
+    (void) cfg;
+    Json plan = Json::object(), kn = Json::object(), al = Json::object(), prog = Json::object(), mods_j = Json::array(), ops = Json::array();
+    kn.set("mode", "C13"); al.set("realloc", (int) (r.chance(1, 2) ? 0 : r.range(1, 2))); al.set("junk", 0xA5); al.set("gap", 16); kn.set("alloc", al);
+    kn.set("placement", (int) (r.chance(1, 2) ? P_PACKED_FAR : r.below(4)));
+    static const char *pool[] = {"f", "g", "h"};
+    int nver = (int) r.range(2, 7); int salt = 100;
+    std::vector<std::set<std::string>> defs(nver), imps(nver);
+    auto push = [&](std::initializer_list<Json> l) { Json o = Json::array(); for (auto &x : l) o.push(x); ops.push(o); };
+    for (int i = 0; i < nver; i++) {
+      Json mo = Json::object(), funcs = Json::array(); mo.set("name", prog::S("m%d", i)); mo.set("fwd_first", (int) r.coin());
+      for (auto nm : pool) if (r.chance(2, 5)) defs[i].insert(nm);
+      for (auto nm : pool) if (!defs[i].count(nm) && r.chance(3, 5)) imps[i].insert(nm);
+      for (auto &nm : defs[i]) {
+        Json f = Json::object(), b = Json::array(); f.set("name", nm); f.set("salt", salt += 7); f.set("na", 1); f.set("nd", 0); f.set("fuel", 0); f.set("exp", 1);
+        Json s1 = Json::array(); s1.push("op"); s1.push(r.coin() ? "add" : "xor"); s1.push("v0"); s1.push("a0"); s1.push((int) r.range(1, 99)); b.push(s1);
+        Json rt = Json::array(); rt.push("ret"); rt.push("v0"); b.push(rt); f.set("body", b); funcs.push(f);
+      }
+      Json e = Json::object(), b = Json::array(); e.set("name", prog::S("e%d", i)); e.set("salt", salt += 7); e.set("na", 1); e.set("nd", 0); e.set("fuel", 0); e.set("exp", 1);
+      int k = 1;
+      for (auto nm : pool) if (defs[i].count(nm) || imps[i].count(nm)) {
+        Json c = Json::array(), a = Json::array(); a.push(r.coin() ? Json("a0") : Json((int) r.range(0, 50))); c.push(r.chance(1, 5) ? "icall" : "call"); c.push(prog::S("v%d", k)); c.push(nm); c.push(a); b.push(c);
+        Json x = Json::array(); x.push("op"); x.push("xor"); x.push("v0"); x.push("v0"); x.push(prog::S("v%d", k)); b.push(x);
+        Json y = Json::array(); y.push("op"); y.push("mul"); y.push("v0"); y.push("v0"); y.push(31); b.push(y); k++;
+      }
+      Json rt = Json::array(); rt.push("ret"); rt.push("v0"); b.push(rt); e.set("body", b); funcs.push(e);
+      mo.set("funcs", funcs); mods_j.push(mo);
+    }
+    prog.set("mods", mods_j);
+    // resolver knows a per-run subset of the pool
+    Json rs = Json::object(); for (auto nm : pool) if (r.chance(1, 3)) rs.set(nm, (int) r.below(8)); if (rs.size()) kn.set("resolver", rs);
+    // history: a loose model (which names are known) biases towards long error-free histories, but errors are legal histories too
+    std::set<std::string> known, known_fn; bool permit = false; std::vector<int> order; for (int i = 0; i < nver; i++) order.push_back(i);
+    for (int i = nver; i > 1; i--) std::swap(order[i - 1], order[r.below(i)]);
+    size_t next = 0; std::vector<int> pend, linked; int risk = (int) r.below(100) < 25 ? 4 : 30;  // 1/risk chance to ignore the bias
+    int nsteps = (int) r.range(4, 22);
+    for (int st = 0; st < nsteps; st++) {
+      unsigned c = (unsigned) r.below(100);
+      if (c < 30 && next < order.size()) {
+        int mi = order[next]; bool clash = false; for (auto &d : defs[mi]) if (known.count(d)) clash = true;
+        if (clash && !permit && !r.chance(1, risk)) { push({"redef", 1}); permit = true; }
+        push({"scan", mi}); push({"load", mi}); next++; pend.push_back(mi); for (auto &d : defs[mi]) { known.insert(d); known_fn.insert(d); }
+      } else if (c < 42) { const char *nm = pool[r.below(3)]; push({"ldext", nm, (int) r.below(8)}); known.insert(nm); }
+      else if (c < 48) { permit = r.coin(); push({"redef", (int) permit}); }
+      else if (c < 72 && !pend.empty()) {
+        bool undefined = false, use_res = r.chance(1, 3); for (int mi : pend) for (auto &n : imps[mi]) if (!known.count(n) && !(use_res && rs.has(n))) undefined = true;
+        if (undefined && !r.chance(1, risk)) { for (int mi : pend) for (auto &n : imps[mi]) if (!known.count(n)) { push({"ldext", n, (int) r.below(8)}); known.insert(n); } }
+        int iface = r.chance(1, 16) ? 0 : (int) r.range(1, 3);
+        push({"link", iface, (int) use_res}); if (use_res) for (int mi : pend) for (auto &n : imps[mi]) if (rs.has(n)) known.insert(n);
+        if (iface != 0) { for (int mi : pend) linked.push_back(mi); pend.clear(); }
+      } else if (!linked.empty()) { int mi = linked[r.below(linked.size())]; Json a = Json::array(); a.push((long long) r.range(0, 1000)); push({r.chance(2, 3) ? "call" : "interp", prog::S("e%d", mi), a}); }
+    }
+    if (!pend.empty()) { for (int mi : pend) for (auto &n : imps[mi]) if (!known.count(n)) push({"ldext", n, (int) r.below(8)}); push({"link", (int) r.range(1, 3), 0}); for (int mi : pend) linked.push_back(mi); }
+    for (int mi : linked) { Json a = Json::array(); a.push((long long) r.range(0, 1000)); push({r.coin() ? "call" : "interp", prog::S("e%d", mi), a}); }
+    plan.set("knobs", kn); plan.set("prog", prog); plan.set("ops", ops);
+    return plan;
+  }
+
   Json generate(Rng &r, const Json &cfg) override {
     std::string m = cfg.gets("mode", "C17");
+    if (m == "C13") return generate_c13(r, cfg);
     Json plan = Json::object(), kn = Json::object(), al = Json::object();
     kn.set("mode", m);
     al.set("realloc", (int) (r.chance(1, 2) ? 0 : r.range(1, 2))); al.set("junk", (int) (r.coin() ? 0xA5 : r.coin() ? 0xFF : 0)); al.set("gap", (int) (r.coin() ? 16 : 48));
     kn.set("alloc", al); kn.set("placement", (int) (r.chance(1, 3) ? P_PACKED_FAR : r.below(4)));
     prog::GenOpts go; go.nmods = (int) r.range(1, 3); go.nfuncs = (int) r.range(1, 3); go.body = (int) r.range(3, 7);
+    bool big = r.chance(1, 8);   // large bodies: code that spans pages, many switch tables (absolute-address relocations)
+    if (big) { go.body = (int) r.range(20, 70); go.nfuncs = (int) r.range(2, 5); }
     // swarm: feature subset per run
     go.lref = r.chance(1, 2); go.jt = r.chance(1, 2); go.sw = r.chance(2, 3); go.icall = r.chance(1, 2); go.ext = r.chance(2, 3); go.mem = r.chance(1, 2); go.loops = r.chance(2, 3); go.doubles = r.chance(1, 3); go.recursion = r.chance(1, 2);
+    if (big) { go.sw = true; go.sw_weight = 30; go.recursion = false; }
     prog::Generator g(r, go); Json prog = g.program(); prog::protect_fuel(prog);
+    for (auto &mo : prog["mods"].a) mo.set("fwd_first", (int) r.coin());
     Json ops = Json::array(); size_t nm = prog.at("mods").size();
     auto push = [&](std::initializer_list<Json> l) { Json o = Json::array(); for (auto &x : l) o.push(x); ops.push(o); };
     std::vector<std::string> names; for (auto &mo : prog.at("mods").a) for (auto &f : mo.at("funcs").a) names.push_back(f.gets("name"));
@@ -514,6 +609,7 @@ struct LcSim : Harness {
       else if (c < 88) push({"outitem", n});
       else if (c < 94) push({"write"});
       else push({"geninit"});
+      if (r.chance(1, 12)) { push({"genfinish"}); if (r.coin()) push({"geninit"}); }
     }
     // optional re-entry of MIR from the external
     if (go.ext && r.chance(1, 2)) {
@@ -530,7 +626,30 @@ struct LcSim : Harness {
   // history (scan, load, link with eager generation) at each optimization level.  If that crashes too, the history is
   // not to blame and the death is counted as a side finding, not as a verdict on a history property.
   void reclassify(const Json &plan, ChildEnd &e) override {
-    if (e.cls != "crash" || !plan.has("prog")) return;
+    if (!plan.has("prog")) return;
+    if (e.cls == "wrong_result" || e.cls == "wrong_ext_log") {
+      // Same experiment for a wrong value: same program, same creation routes, one ordinary link step with the engine that
+      // produced the wrong value (interpreter, or eager generation at each level), then the same calls.  If the model is
+      // contradicted there too, the defect is in what the program means to that engine (C01/C02/C04/C07 territory).
+      bool interp = e.sig == "interp" || e.sig == "iface1";
+      for (int level = 0; level < (interp ? 1 : 4); level++) {
+        Json p = plan; Json ops = Json::array(); size_t nm = plan.at("prog").at("mods").size();
+        auto push = [&](std::initializer_list<Json> l) { Json o = Json::array(); for (auto &x : l) o.push(x); ops.push(o); };
+        push({"opt", level});
+        for (auto &op : plan.at("ops").a) if (op.k == Json::Arr && op.size() > 1 && (op[0].s == "scan" || op[0].s == "c2m" || op[0].s == "bin")) ops.push(op);
+        for (size_t mi = 0; mi < nm; mi++) { push({"scan", (long long) mi}); push({"load", (long long) mi}); }
+        push({"link", interp ? 1 : 2, 0});
+        for (auto &op : plan.at("ops").a) if (op.k == Json::Arr && op.size() > 1 && (op[0].s == "call" || op[0].s == "interp")) { Json c = op; c[0] = Json(e.sig == "interp" ? "interp" : "call"); ops.push(c); }
+        p.set("ops", ops);
+        ChildEnd c = run_isolated(*this, p, hang_seconds(), false);
+        if (c.status == "violation" && (c.cls == "wrong_result" || c.cls == "wrong_ext_log")) {
+          e.cls = "side_program_level_wrong_value"; e.sig = interp ? "interp" : "gen_O" + std::to_string(level);
+          e.detail = "the plain history create/load/link/call of the same program gives the same kind of wrong value (" + c.detail.substr(0, 120) + "): " + e.detail; return;
+        }
+      }
+      return;
+    }
+    if (e.cls != "crash") return;
     for (int level = 0; level < 4; level++) {
       Json p = plan; Json ops = Json::array(); size_t nm = plan.at("prog").at("mods").size();
       auto push = [&](std::initializer_list<Json> l) { Json o = Json::array(); for (auto &x : l) o.push(x); ops.push(o); };
